@@ -22,7 +22,15 @@ PROP = {'rule': 'rapid-generated histories of 1-5 slo-controller ConfigMap event
          'the ConfigMap) and then applying an EARLIER text of that section again byte for byte (also over a different text, also a '
          'malformed one; the other sections are removed / kept / re-applied the same way); the expectation after every event is '
          'computed from the current ConfigMap text only. non-trivial there = a valid earlier text is re-applied after the section '
-         'was gone (key removed or ConfigMap deleted) and yields non-default settings for some node.',
+         'was gone (key removed or ConfigMap deleted) and yields non-default settings for some node. TestVerifC20Delivered (unit '
+         'delivered): same engine, judged section drawn per case, 2-6 events incl. node relabel events; the observable is the spec '
+         'READ BACK from the NodeSLO object stored after the real NodeSLOReconciler.Reconcile ran (first reconcile creates it, later '
+         'ones take the update path against the previously stored, serialized object); non-trivial = on the update path the stored '
+         'spec has to lose a leaf it had before. TestVerifC20StartupRace (unit startuprace): two ConfigMap versions (v1 = what the '
+         'informer cache holds, possibly none; v2 = any, judged section not malformed); the first IsCfgAvailable reads v1 and, inside '
+         'that Get, the harness moves the cache to v2 and invokes the real Create/Update handler - inline when the cache lock is free '
+         '(TryLock), else in a goroutine joined after IsCfgAvailable returns; 10 % controls deliver the event afterwards; at quiescence '
+         'every node must get the layering of v2; non-trivial = event inside the window and v1/v2 give some node different settings.',
  'assumptions': ['"sets the field" is read on the JSON text: a key that is absent, null, "" for a by-value string field, {} for a map or '
                  '[] for a list of blkio blocks does not set anything; unknown keys are ignored. Host applications: an entry with '
                  '"applications": [] sets the list (no applications), an entry without the key does not (cluster list); null is '
@@ -36,6 +44,10 @@ PROP = {'rule': 'rapid-generated histories of 1-5 slo-controller ConfigMap event
                  'nodes carry no network-bandwidth annotation (the documented per-node override of totalNetworkBandwidth is outside '
                  'the statement); nothing is asserted about the event right after a ConfigMap delete (the statement is silent), '
                  'later events are judged against what was observed then',
+                 'unit delivered uses a stand-in API client that stores NodeSLO objects serialized (JSON) and serves the generated nodes; '
+                 'nodes are reconciled after every event whether or not the handler enqueued them (a resync does the same). unit '
+                 'startuprace owns exactly one interleaving point (inside the ConfigMap Get of the first IsCfgAvailable); other '
+                 'interleavings are not explored',
                  'invalid selectors are limited to four shapes LabelSelectorAsSelector rejects (In without values, Exists with values, '
                  'unknown operator, illegal label value)'],
  'units': [{'name': 'nodeslo',
@@ -46,7 +58,9 @@ PROP = {'rule': 'rapid-generated histories of 1-5 slo-controller ConfigMap event
                       {'run': 'TestVerifC20CPUBurst', 'quick': 4000, 'thorough': 10000, 'shards': 6},
                       {'run': 'TestVerifC20System', 'quick': 4000, 'thorough': 10000, 'shards': 6},
                       {'run': 'TestVerifC20HostApp', 'quick': 4000, 'thorough': 10000, 'shards': 6},
-                      {'run': 'TestVerifC20Reapply', 'quick': 3000, 'thorough': 10000, 'shards': 6}]}],
+                      {'run': 'TestVerifC20Reapply', 'quick': 3000, 'thorough': 10000, 'shards': 6},
+                      {'run': 'TestVerifC20Delivered', 'quick': 3000, 'thorough': 10000, 'shards': 6},
+                      {'run': 'TestVerifC20StartupRace', 'quick': 3000, 'thorough': 10000, 'shards': 6}]}],
  'manifest': {'technique': 'property-based testing (rapid): generated ConfigMap histories with reflection-driven strategy generators and a '
                            'text-level reference model of the default < cluster < first-matching-entry layering',
               'text': 'Generated-input search: histories of ConfigMap events are fed to the real event handler; after each event the '
